@@ -479,10 +479,11 @@ def rule_art(ctx) -> None:
     for n in acfg.nodes:
         for c in node_calls(n):
             if call_tail(c) == "_emit_quality_trace":
-                facts = {t for t, p in acfg.facts(n) if p}
-                need = {"perf_enabled", "metrics_enabled", "q_shadow"}
-                ctx.check(need <= facts, "C02.ART", f"{aq.qual}/shadow-trace", aq.loc(c), "the quality shadow trace needs perf.enabled, perf.metrics.report_memory and t2.quality.shadow",
-                          f"the quality trace is emitted without {sorted(need - facts)}")
+                pe2 = PathEval(ctx, depth=2)
+                need = ("cfg:perf.enabled", "cfg:perf.metrics.report_memory", "cfg:t2.quality.shadow")
+                missing = [ga for ga in need if not gate_on(ctx, aq, n, pe2, ga)]
+                ctx.check(not missing, "C02.ART", f"{aq.qual}/shadow-trace", aq.loc(c), "the quality shadow trace needs perf.enabled, perf.metrics.report_memory and t2.quality.shadow",
+                          f"the quality trace is emitted without {missing}")
 
 
 def rule_mut(ctx) -> None:
@@ -509,17 +510,38 @@ def rule_mut(ctx) -> None:
 def rule_val(ctx) -> None:
     fn = ctx.func("configs.validate:_validate_config_normalize_impl")
     cfg = ctx.cfg(fn)
-    for key, raw in (("perf", "raw_perf"), ("quality", "raw_t2_quality")):
-        stores = [n for n in cfg.nodes if n.kind == "stmt" and isinstance(n.ast, ast.Assign) and any(isinstance(t, ast.Subscript) and const_str(t.slice) == key and src(t.value) in ("merged", "t2") for t in n.ast.targets)]
+    from .c14 import _validator_subdicts
+    subs = _validator_subdicts(ctx, fn)
+    rd = ctx.rd(fn)
+    inp = fn.params[0] if fn.params else "cfg_in"
+    for key, parent in (("perf", ""), ("quality", "t2")):
+        holders = {v for v, (pth, _n) in subs.items() if pth == parent}
+        stores = [n for n in cfg.nodes if n.kind == "stmt" and isinstance(n.ast, ast.Assign) and any(isinstance(t, ast.Subscript) and const_str(t.slice) == key and src(t.value) in holders for t in n.ast.targets)]
         if not stores:
             raise AnalysisError(f"anchor-vanished: validator store of [{key!r}]")
         for s in stores:
-            facts = cfg.facts(s)
-            ok = any(p and (t == raw or t.startswith(raw) or f"'{key}' in cfg_in" in t) for t, p in facts)
+            ok = False
+            for test, pol, gn in cfg.guards(s):
+                if not pol:
+                    continue
+                # `'<key>' in <input>` or the truthiness of a local read from <input>...get("<key>")
+                if isinstance(test, ast.Compare) and len(test.ops) == 1 and isinstance(test.ops[0], ast.In) and const_str(test.left) == key:
+                    ok = True
+                for y in ast.walk(test):
+                    if isinstance(y, ast.Name):
+                        for d in rd.reaching(y.id, gn):
+                            if d.value is not None and any(const_str(z) == key for z in ast.walk(d.value)):
+                                ok = True
             ctx.check(ok, "C02.VAL", f"{fn.qual}/materialises-{key}-only-if-given", fn.loc(s.ast), f"[{key!r}] is written into the normalised config only when the user supplied that section",
                       f"the validator materialises [{key!r}] although the user gave no such section: a config that omits the subtree no longer normalises to the same tree")
-    pops = [n for n in cfg.nodes if any(call_tail(c) == "pop" and c.args and const_str(c.args[0]) == "perf" and src(c.func.value) == "defaults" for c in node_calls(n))]
-    ok = bool(pops) and all(any((t == "'perf' not in cfg_in" and p) or (t == "'perf' in cfg_in" and not p) for t, p in cfg.facts(n)) for n in pops)
+    pops = [n for n in cfg.nodes if any(call_tail(c) == "pop" and c.args and const_str(c.args[0]) == "perf" and isinstance(c.func.value, ast.Name) and c.func.value.id not in (inp,) for c in node_calls(n))]
+
+    def _absent(test: ast.AST, pol: bool) -> bool:
+        if isinstance(test, ast.Compare) and len(test.ops) == 1 and const_str(test.left) == "perf":
+            return (isinstance(test.ops[0], ast.NotIn) and pol) or (isinstance(test.ops[0], ast.In) and not pol)
+        return False
+
+    ok = bool(pops) and all(any(_absent(t, p) for t, p, _g in cfg.guards(n)) for n in pops)
     ctx.check(ok, "C02.VAL", f"{fn.qual}/perf-defaults-dropped", fn.loc(pops[0].ast) if pops else fn.loc(), "the perf defaults are dropped when the user gave no perf section", "perf defaults are injected although the user gave no perf section")
 
 
